@@ -134,7 +134,7 @@ def _case(draw: Any, args: dict) -> dict:
         cname = namer.fresh("Cls")
         members = []
         for _ in range(draw(st.integers(0, 2))):
-            f, _ds, fs = make(namer.fresh("me"), "method")  # type: ignore[misc]
+            f, _ds, fs = make(namer.fresh("me"), draw(st.sampled_from(["method", "method", "static", "classmethod"])))  # type: ignore[misc]
             members.append(f)
             slots[f"{cname}.{f['name']}"] = fs
         ctor, cds, cfs = make("__init__", "method", True)  # type: ignore[misc]
